@@ -86,9 +86,13 @@ def gen_env(rng, prof):
         if rng.random() < prof["p_extractor"] * (0.3 if c >= 100 else 1):
             fail = []
             if rng.random() < prof["p_ext_fail"]:
-                for k in range(6):
-                    if rng.random() < 0.4 and not (fail and fail[-1][0] == k - 1):
-                        fail.append([k, rng.randint(8, 11)])
+                if rng.random() < 0.2:
+                    # permanently broken extractor (also for the exceptions it raises itself, when registered on a base class)
+                    fail = [[k, rng.randint(8, 11)] for k in range(60)]
+                else:
+                    for k in range(8):
+                        if rng.random() < 0.4:
+                            fail.append([k, rng.randint(8, 11)])
             extractors.append(dict(cls=c, fields=[["ex%d" % c, {"n": c}]], failAt=fail))
     ser_fail = [[k, rng.randint(8, 11)] for k in range(12) if rng.random() < prof["p_ser_fail"]]
     dest_fail = []
@@ -135,7 +139,11 @@ class PG:
                 start.append(["missing", self.sid()])
             success = [[k, self.sid()] for k in rng.sample(KEYS, rng.randint(0, 2))]
             sers = dict(start=start, success=success)
-        return dict(atype=rng.choice(["app:a", "app:b", "app:c"]), fields=f, sers=sers), sers
+        self.nact = getattr(self, "nact", 0) + 1
+        atype = "%s#%d" % (rng.choice(["app:a", "app:b", "app:c"]), self.nact)
+        if sers is None and rng.random() < 0.04:
+            atype = ""  # start_action()'s default action type
+        return dict(atype=atype, fields=f, sers=sers), sers
 
     def mspec(self):
         rng = self.rng
@@ -186,7 +194,8 @@ class PG:
                 if x is None and not st["in_action"]:
                     continue
                 out.append(dict(op="serializeAs", y=y, x=x))
-                sp = dict(atype="eliot:remote_task", fields=self.fields(1), sers=None)
+                self.nact = getattr(self, "nact", 0) + 1
+                sp = dict(atype="eliot:remote_task#%d" % self.nact if rng.random() < 0.5 else "eliot:remote_task", fields=self.fields(1), sers=None)
                 body = self.block(depth + 1, dict(st, in_action=True)) if depth < prof["max_depth"] else []
                 cont = dict(op="continueWith", y=y, spec=sp, body=body)
                 if rng.random() < 0.5:
@@ -240,14 +249,36 @@ class PG:
             sub = dict(st, in_action=True)
             if r < 0.3:
                 body = self.block(depth + 1, sub) if depth < self.prof["max_depth"] else []
+                if rng.random() < 0.45:
+                    # re-enter the same action's context()/run() while already inside it
+                    inner = [dict(op="probe", n=self.nprobe)]
+                    self.nprobe += 1
+                    if rng.random() < 0.5:
+                        inner.append(dict(op="log", ms=self.mspec()))
+                    if rng.random() < 0.3:
+                        inner.append(dict(op="raise", e=rng.randint(0, 7)))
+                        body = body + [dict(op="try", body=[dict(op=rng.choice(["inContext", "runIn"]), x=x, body=inner)], handler=[])]
+                    else:
+                        body = body + [dict(op=rng.choice(["inContext", "runIn"]), x=x, body=inner)]
+                    body.append(dict(op="probe", n=self.nprobe))
+                    self.nprobe += 1
                 out.append(dict(op=rng.choice(["inContext", "runIn"]), x=x, body=body))
+                out.append(dict(op="probe", n=self.nprobe))
+                self.nprobe += 1
             elif r < 0.45:
                 out.append(dict(op="logTo", x=x, ms=self.mspec()))
             elif r < 0.6:
                 out.append(dict(op="addSuccess", x=x, fs=self.fields(1)))
             elif r < 0.8:
                 body = self.block(depth + 1, sub) if depth < self.prof["max_depth"] else []
+                if rng.random() < 0.4:
+                    # use the action's context()/run() while inside `with x:`
+                    body = body + [dict(op=rng.choice(["inContext", "runIn"]), x=x, body=[dict(op="probe", n=self.nprobe)]),
+                                   dict(op="probe", n=self.nprobe + 1)]
+                    self.nprobe += 2
                 out.append(dict(op="withHandle", x=x, body=body))
+                out.append(dict(op="probe", n=self.nprobe))
+                self.nprobe += 1
                 finished = True
             else:
                 out.append(dict(op="finish", x=x, exc=None if rng.random() < 0.6 else rng.randint(0, 7)))
